@@ -289,6 +289,7 @@ type cluster struct {
 	pubs  keys.PublicKeys // in validator order
 	dir   string
 	sr    bool
+	epoch bool // the validator set changes: nodes are numbered by key, not by validator index
 }
 
 func (c *cluster) f() int { return (c.n - 1) / 3 }
@@ -315,6 +316,10 @@ type clusterOpts struct {
 	maxBlockSize     uint32
 	validUntilIncr   uint32
 	skipVerification bool
+	// epoch cases (epoch.go): a node for every committee member (node index = key index), the
+	// number of validators by height
+	allNodes   bool
+	valHistory map[uint32]uint32
 }
 
 var walletCache sync.Map // key index -> wallet file path (within this process)
@@ -346,7 +351,7 @@ func newCluster(dir string, o clusterOpts) (*cluster, error) {
 	if !time.Now().Before(fakeEpoch.Add(-24 * time.Hour)) {
 		return nil, errors.New("harness clock origin is not in the future of the wall clock; move fakeEpoch")
 	}
-	c := &cluster{n: o.n, clk: &clock{}, dir: dir, sr: o.stateRoot}
+	c := &cluster{n: o.n, clk: &clock{}, dir: dir, sr: o.stateRoot, epoch: o.allNodes}
 	total := o.n + o.extraCommittee
 	privs := make([]*keys.PrivateKey, total)
 	committee := make([]string, total)
@@ -355,8 +360,13 @@ func newCluster(dir string, o clusterOpts) (*cluster, error) {
 		committee[i] = privs[i].PublicKey().StringCompressed()
 	}
 	mkCfg := func() config.Blockchain {
+		vc := uint32(o.n)
+		if o.valHistory != nil {
+			vc = 0
+		}
 		return config.Blockchain{
 			ProtocolConfiguration: config.ProtocolConfiguration{
+				ValidatorsHistory:           o.valHistory,
 				Magic:                       magic,
 				MemPoolSize:                 o.memPoolSize,
 				MaxTraceableBlocks:          10000,
@@ -365,7 +375,7 @@ func newCluster(dir string, o clusterOpts) (*cluster, error) {
 				MaxBlockSize:                o.maxBlockSize,
 				MaxValidUntilBlockIncrement: o.validUntilIncr,
 				StandbyCommittee:            committee,
-				ValidatorsCount:             uint32(o.n),
+				ValidatorsCount:             vc,
 				StateRootInHeader:           o.stateRoot,
 				TimePerBlock:                timePerBlock,
 				MaxTimePerBlock:             o.maxTimePerBlock,
@@ -375,7 +385,11 @@ func newCluster(dir string, o clusterOpts) (*cluster, error) {
 			},
 		}
 	}
-	for i := 0; i < o.n; i++ {
+	numNodes := o.n
+	if o.allNodes {
+		numNodes = total
+	}
+	for i := 0; i < numNodes; i++ {
 		nd := &node{cl: c, barrier: make(chan struct{}, 4), verbose: o.verbose}
 		// the ledger's own log is not this property's business
 		bc, err := newChain(mkCfg(), zap.NewNop())
@@ -396,7 +410,10 @@ func newCluster(dir string, o clusterOpts) (*cluster, error) {
 		byPub[p.PublicKey().StringCompressed()] = i
 	}
 	for i, nd := range c.nodes {
-		ki := byPub[vals[i].StringCompressed()]
+		ki := i
+		if !o.allNodes {
+			ki = byPub[vals[i].StringCompressed()]
+		}
 		nd.idx = i
 		nd.priv = privs[ki]
 		nd.tm = newFakeTimer(c.clk)
@@ -543,9 +560,31 @@ func (n *node) sentinel() *npayload.Extensible {
 	return &npayload.Extensible{
 		Category:      npayload.ConsensusCategory,
 		ValidBlockEnd: 0,
-		Sender:        n.cl.pubs[0].GetScriptHash(),
+		Sender:        n.sentinelSender(),
 		Data:          data,
 	}
+}
+
+// sentinelSender: the service checks the sender against validator 0 of its ledger's current list.
+func (n *node) sentinelSender() util.Uint160 {
+	if n.cl.epoch {
+		if vals, err := n.bc.GetNextBlockValidators(); err == nil && len(vals) > 0 {
+			return vals[0].GetScriptHash()
+		}
+	}
+	return n.cl.pubs[0].GetScriptHash()
+}
+
+// workingHeight is the height the node's dBFT works on. The timer shows it for a validator; a
+// watch-only node never arms its timer (dbft.go:137), so epoch cases read the context.
+func (n *node) workingHeight() uint32 {
+	if n.cl.epoch {
+		if d := dbftOf(n.srv); d != nil {
+			return d.BlockIndex
+		}
+	}
+	_, th, _, _ := n.tm.state()
+	return th
 }
 
 // sync waits until the node's service has handled everything injected so far, including the
@@ -567,9 +606,18 @@ func (n *node) sync() error {
 		if err := n.srv.OnPayload(n.sentinel()); err != nil {
 			return err
 		}
+		wait := time.Until(deadline)
+		if n.cl.epoch && wait > 2*time.Second {
+			// the validator list may have changed between building the sentinel and its check
+			wait = 2 * time.Second
+		}
 		select {
 		case <-n.barrier:
-		case <-time.After(time.Until(deadline)):
+		case <-time.After(wait):
+			if time.Now().Before(deadline) {
+				drained, confirmed = false, false
+				continue
+			}
 			return errSync
 		}
 		// The barrier travels through the payload channel; a transaction handed over by the
@@ -588,7 +636,7 @@ func (n *node) sync() error {
 			continue
 		}
 		// dBFT must be working on the height after the ledger's tip.
-		_, th, _, _ := n.tm.state()
+		th := n.workingHeight()
 		if th == n.bc.BlockHeight()+1 {
 			// The chain's block notification reaches the service on its own channel, which pending()
 			// does not see, and the timer shows the new height as soon as a view change nested in
